@@ -121,6 +121,18 @@ def expect(chk, rule, anchor, got, want, where=None, what="value", key=None):
     return okk
 
 
+def iter_source(t):
+    """the collection an iterator value walks front to back: `x.into_iter()`, `x.iter()`, `(&x).into_iter()`, `x.iter_mut()`"""
+    while isinstance(t, tuple) and t:
+        if t[0] == "iter":
+            t = t[1]
+        elif t[0] == "call" and len(t[2]) == 1 and (t[1].endswith("::into_iter") or t[1].endswith("::iter") or t[1].endswith("::iter_mut")):
+            t = t[2][0]
+        else:
+            break
+    return t
+
+
 def loops_first_case(t):
     from . import loops
     return loops.first_case(t)
